@@ -830,11 +830,41 @@ fn judge(w: &WorldSpec, lib: &Result<LibRef, String>, sep: &ProcResult, shared: 
     if let Some(c) = &shared.combined {
         let mut want = sep.stdout.clone();
         want.extend_from_slice(&sep.stderr);
-        if *c != want {
+        // the error report - from the library's error text on - comes after
+        // all of standard output; what else the tool writes to standard error
+        // (warnings before the program starts, say) may come earlier
+        let error_text: Option<&[u8]> = match lib {
+            LibRef::ParseError(m) => Some(m.as_bytes()),
+            LibRef::Exec { error: Some(m), .. } if m != NO_TEXT => Some(m.as_bytes()),
+            _ => None,
+        };
+        let in_order = |part: &[u8], whole: &[u8]| -> bool {
+            let mut it = whole.iter();
+            part.iter().all(|b| it.any(|w| w == b))
+        };
+        let acceptable = *c == want
+            || match error_text {
+                Some(m) => match (find_from(c, m, 0), find_from(&sep.stderr, m, 0)) {
+                    (Some(p), Some(q)) => {
+                        c[p..] == sep.stderr[q..]
+                            && p == sep.stdout.len() + q
+                            && in_order(&sep.stdout, &c[..p])
+                            && in_order(&sep.stderr[..q], &c[..p])
+                    }
+                    _ => false,
+                },
+                // no error report: nothing to be after
+                None => {
+                    c.len() == sep.stdout.len() + sep.stderr.len()
+                        && in_order(&sep.stdout, c)
+                        && in_order(&sep.stderr, c)
+                }
+            };
+        if !acceptable {
             return Some((
                 "C20.R3-error-after-output",
                 format!(
-                    "with stdout and stderr on one file description the byte stream is not <all standard output><standard error> ({} bytes vs {} + {})",
+                    "with stdout and stderr on one file description the error report does not come after all of standard output ({} bytes in all, {} of standard output, {} of standard error)",
                     c.len(),
                     sep.stdout.len(),
                     sep.stderr.len()
